@@ -214,7 +214,7 @@ func init() {
 		if c.Thorough() {
 			depth = 4
 		}
-		c.Rule = fmt.Sprintf("(A) every sequence to depth %d over an alphabet of 12 (RBAC) / 9 (domains) policy and grouping changes incl. ClearPolicy and LoadPolicy, every request of the universe asked before and after each change, compared with the Coq model and with a fresh enforcer; (B) seeded histories over a wider alphabet (matching functions, SetRoleManager+BuildRoleLinks, EnforceWithMatcher, batch/filtered/update calls, DeleteUser) checked against a fresh real enforcer after every step. Distinct = sequence; non-trivial = at least one decision changes along the sequence.", depth)
+		c.Rule = fmt.Sprintf("(A) every sequence to depth %d over an alphabet of 12 (RBAC) / 9 (domains) policy and grouping changes incl. ClearPolicy and LoadPolicy, every request of the universe asked before and after each change, compared with the Coq model and with a fresh enforcer; (B) seeded histories over a wider alphabet (matching functions, SetRoleManager+BuildRoleLinks, EnforceWithMatcher, batch/filtered/update calls, DeleteUser) checked against a fresh real enforcer after every step. Distinct = sequence; non-trivial = at least one decision changes along the sequence. Additions: families with names whose concatenations collide (a+bc = ab+c, also across the domain argument); identity updates and batches whose old and new rules overlap (outside the F08 guard: compared with the model only, successors not explored); SetModel / LoadModel in the wide alphabet; conditional role definitions with link condition functions and parameters against an enforcer set up before its first Enforce.", depth)
 		for fi, f := range c04Families() {
 			content := []prule{}
 			switch fi {
